@@ -51,7 +51,7 @@ def _with_trailing(a):
     if k == "types" and t[1]:
         return "list", A(a["name"], "types", t[1], True)
     if k == "fmt":
-        return "list", A(a["name"], "fmt", t[1], t[2], True)
+        return ("list" if t[2] else "lone-literal"), A(a["name"], "fmt", t[1], t[2], True)
     if k == "bounds" and t[2]:
         return "list", A(a["name"], "bounds", t[1], t[2], True)
     if k == "convs" and t[1]:
@@ -137,7 +137,7 @@ def rewrites(derive, it):
     if hit:
         yield "split-wrapped", n, "exact"
     # trailing commas
-    for cls in ("list", "kw"):
+    for cls in ("list", "kw", "lone-literal"):
         n = clone(it)
         hit = False
         for pos, k, a in _each(derive, n):
@@ -345,8 +345,8 @@ def corruptions(derive, it, rng):
             yield out("conflict", "struct+field", _append(it, ("field", 0), A(name, "empty")), it)
         else:
             fa = [(pos, a) for pos, k, a in _each(derive, it) if pos[0] == "field"]
-            skips = [p for p, a in fa if a["t"][0] == "kw"]
-            others = [p for p, a in fa if a["t"][0] != "kw"]
+            skips = [p for p, a in fa if a["t"][0] == "kw" and a["t"][1] in ("skip", "ignore")]
+            others = [p for p, a in fa if not (a["t"][0] == "kw" and a["t"][1] in ("skip", "ignore"))]
             free = [("field", i) for i in range(len(it["fields"])) if not it["fields"][i]["attrs"]]
             if free and others:
                 yield out("conflict", "skip+others", _append(it, free[0], A(name, "kw", "skip")), it)
